@@ -236,7 +236,72 @@ def specs(prop='C03'):
                 ctx.prove(f'{pre}.one_element[{label}]', c[4] is True)
         check_window(ctx, pre, label, self, st, start, exp_stop, st['n'], open_ended)
 
+    def run_name(ctx, case, loc, pre, label):
+        """view['name'] (single-item name search): find_def is assumed to return either nothing, a direct child taken
+        from the list it was given, or a deeper node.  Obligations: the search list is exactly the view's window of the
+        real field; a direct child at field position j is designated by the view-relative index j - start - docstr
+        offset (the element Python indexing of the window would give); nothing is delegated or written"""
+        self, base, st, it, n, _start, _stop, made = world(ctx, case)
+        start, stop = healed(n, _start, _stop)
+        field = case['field']
+        off = ctx.int('has_docstr') if field == '_body' else 0
+        if field == '_body':
+            ctx.assume(and_(0 <= off, off <= 1))
+        self._set('field', field, count=False)
+        BLOCK = type('BlockCls', (), {})
+        seen = {}
+
+        class FieldList:
+            def __getitem__(_, sl):
+                seen['slice'] = (sl.start, sl.stop, sl.step)
+                return 'WINDOW'
+        fl = FieldList()
+        a = SObj('a', {}, **{'__class__': BLOCK, 'body': fl, 'orelse': fl, 'finalbody': fl})
+        base._set('a', a, count=False)
+        base._set('has_docstr', off, count=False)
+        j = ctx.int('j')
+        kind = case['found']
+        found = None
+        if kind == 'child':
+            found = SObj('found', {}, parent=base, pfield=SObj('pf', {}, idx=j))
+        elif kind == 'deep':
+            found = SObj('found', {}, parent=SObj('other', {}), pfield=SObj('pf', {}, idx=j))
+
+        def find_def(name, asts=None, **kw):
+            seen['asts'] = asts
+            if kind == 'child':   # assumed contract of find_def: a direct child comes from the list it was given
+                ctx.assume(and_(seen['slice'][0] <= j, j < seen['slice'][1]))
+            return found
+        base._set('find_def', find_def, count=False)
+        it.globals['ASTS_LEAF_BLOCK_OR_MOD'] = frozenset([BLOCK])
+        f = IFunc(it, loc.node, None, '_fixup_item_indices')
+        try:
+            r = it.call(f, (self, 'name'))
+        except PyRaise as pr:
+            ctx.notes['outcome'] = f'raise {pr.cls.__name__}'
+            ctx.prove(f'{pre}.raises.only_when_not_found[{label}]', kind == 'none' and pr.cls is IndexError)
+            ctx.prove(f'{pre}.raises.nothing_delegated[{label}]', not st['calls'])
+            return
+        ctx.notes['outcome'] = 'return'
+        ctx.prove(f'{pre}.found_is_returned[{label}]', kind != 'none')
+        ok = 'slice' in seen and seen.get('asts') == 'WINDOW'
+        ctx.prove(f'{pre}.search.window_only[{label}]',
+                  ok and eq((seen['slice'][0], seen['slice'][1]), (start + off, stop + off)) and seen['slice'][2] is None,
+                  info='the name search must be confined to the elements of the view')
+        ctx.prove(f'{pre}.bounds[{label}]', eq((r[0], r[1], r[2]), (start, stop, n)) and r[4] is None)
+        if kind == 'child':
+            ctx.prove(f'{pre}.designation[{label}]', eq(r[3] + start + off, j),
+                      info='view-relative index of the found direct child: window[r] is the element at field position j')
+            ctx.prove(f'{pre}.designation.in_window[{label}]', and_(0 <= r[3], r[3] < stop - start))
+        else:
+            ctx.prove(f'{pre}.deep_node_itself[{label}]', r[3] is found)
+        ctx.prove(f'{pre}.read_only[{label}]', not st['calls'])
+
     out = []
+    out.append(Fragment('view:FSTView._fixup_item_indices', prop, 'view.name_index',
+                        [dict(m='name', stop=s_, field=fld, found=k) for s_ in ('None', 'int')
+                         for fld in ('body', '_body', 'orelse') for k in ('child', 'deep', 'none')], run_name,
+                        min_obligations=3, notes='str index branch; find_def under an assumed contract'))
     stops = ('None', 'int')
     simple = ['_base_indices', '__len__', 'append', 'extend', 'prepend', 'prextend', 'replace', 'remove', 'cut', 'copy']
     for m in simple:
